@@ -5,6 +5,7 @@ package syncer
 // half), C02, C07, C09.
 
 import (
+	"github.com/mgtv-tech/redis-GunYu/config"
 	"github.com/mgtv-tech/redis-GunYu/pkg/redis/checkpoint"
 	"context"
 	"strconv"
@@ -512,17 +513,32 @@ func VerifSenderNonTxn() { verifSender(false) }
 func VerifC19SenderRetry() {
 	k := verifParam("K", 3)
 	bc := uint(verifRange("batchCount", 1, verifParam("BC", 2)))
+	// plain sending (the sender may retry a redirected batch) or transactional sending to a cluster
+	// (a redirected batch has been partly executed by the node: re-sending it would execute commands twice)
+	txnCluster := verifChoose("txnCluster", 2) == 1
 	st := verifGenStream(k, 0, false)
 	fake := verifNewFake()
 	fake.tagOf = verifTagOf
 	fake.moveBatch = verifRange("moveBatch", 1, 3)
-	ro := verifNewOutput(false, bc, fake)
-	run := verifDrive(ro, st, fake, false, 0)
+	ro := verifNewOutput(txnCluster, bc, fake)
+	if txnCluster {
+		ro.cfg.Redis.Type = config.RedisTypeCluster
+		fake.moveBatchPartial = true
+	}
+	run := verifDrive(ro, st, fake, txnCluster, 0)
 	// (whether the stop arrives before or after the retry is a race: not observed for the differential)
-	if run.err == nil {
+	seen := map[int]bool{}
+	for _, r := range run.fake.log {
+		if r.cmd == "set" && r.tag >= 0 {
+			verifAssert(!seen[r.tag], "C19.sender.command-executed-twice")
+			seen[r.tag] = true
+		}
+	}
+	if run.err == nil && !txnCluster {
 		verifCheckC19Complete(st, run)
 		verifCover(fake.batchRuns > fake.moveBatch, "c19.sender.retried")
 	}
+	verifCover(txnCluster && run.err != nil, "c19.sender.txn-cluster-redirect-reported")
 	verifReach("c19.sender.done")
 }
 
